@@ -123,6 +123,16 @@ CHECKS = {
              "enforces the negotiated LZ77 windows (1-byte output steps) must restore every client message and every message it "
              "compresses must arrive intact; damaged input must give the reference inflater's content or a ProtocolError.",
         note="DEFLATE is zlib on both sides; peer logic (tail handling, context resets, parameter mapping, window) is independent."),
+    "C15": dict(
+        category="exploration", design_ref="DESIGN.md section 3 / C15",
+        technique="property-based testing on a virtual clock: generated timer configurations and arrival histories checked against closed-form timing bounds",
+        text="The real client runs on a harness-owned virtual clock (selector waits advance it), so every Poll/Unresponsive/"
+             "Disconnected event and every automatic Ping frame has an exact timestamp. Hypothesis draws poll, ping_rate, "
+             "ping_timeout, close_timeout (incl. 0/None), arrival histories on a 1/8 s grid with arrivals deliberately one grid step "
+             "around the deadlines, an optional close() and server reply, and a delayed handshake; the oracle checks the bounds of "
+             "the statement exactly (no tolerance: all arithmetic is exact on the grid). A full parameter grid x 3 canonical "
+             "histories is enumerated as well.",
+        note="Handler time is zero on the virtual clock; real-time behaviour of the OS selector is outside this check (see C18)."),
 }
 
 PENDING = {}
